@@ -1,34 +1,26 @@
 package main
 
 import (
-	"context"
+	"flag"
 	"fmt"
+	"os"
+	"time"
 
-	"github.com/grailbio/bigslice"
-	"github.com/grailbio/bigslice/exec"
-	"github.com/grailbio/bigslice/sliceio"
+	"verifharness/prog"
 )
 
-var f = bigslice.Func(func(n int) bigslice.Slice {
-	xs := make([]int, n)
-	for i := range xs {
-		xs[i] = i % 5
-	}
-	s := bigslice.Const(3, xs, xs)
-	return bigslice.Reduce(s, func(a, b int) int { return a + b })
-})
-
 func main() {
-	sess := exec.Start(exec.Local)
-	res, err := sess.Run(context.Background(), f, 100)
-	if err != nil {
-		panic(err)
+	chunk := os.Args[1]
+	flag.Set("bigslice-internal-default-chunk-rows", chunk)
+	p := prog.Prog{Nodes: []prog.Node{
+		{Op: "const", N: 3, Types: []string{"i", "i"}, Cols: [][]int64{{1, 2, 1, 2, 3}, {10, 20, 30, 40, 50}}},
+		{Op: "reduce", In: []int{0}, Comb: "sum"},
+	}}
+	for _, cfg := range []prog.Cfg{{Kind: "local", Parallelism: 2}, {Kind: "bigmachine", Parallelism: 1, Procs: 1}} {
+		s := prog.Start(cfg)
+		o, _ := prog.RunOnce(s, p, "", 15*time.Second)
+		fmt.Println(cfg, o.Err, o.ErrMsg, o.Shards, o.Wall)
+		o, _ = prog.RunOnce(s, p, "", 15*time.Second)
+		fmt.Println(" again:", o.Err, o.ErrMsg, o.Wall)
 	}
-	sc := res.Scanner()
-	var k, v int
-	for sc.Scan(context.Background(), &k, &v) {
-		fmt.Println(k, v)
-	}
-	_ = sliceio.EOF
-	fmt.Println(sc.Err())
 }
